@@ -271,7 +271,16 @@ impl<'a> ParserModuleAnalyzer<'a> {
     };
     // Get trailing comments from the program end to extract sourceMappingURL
     // which is typically at the very end of the file
-    let trailing_comments = comments.get_trailing(program.end());
+    let trailing_comments =
+      comments.get_trailing(program.end()).or_else(|| {
+        // in a module without any statement every comment is attached to
+        // the start of the program instead
+        if program.body().next().is_none() {
+          leading_comments
+        } else {
+          None
+        }
+      });
     ModuleInfo {
       is_script: program.compute_is_script(),
       dependencies: analyze_dependencies(program, text_info, comments),
